@@ -38,6 +38,11 @@ def generate(rng, tier, seed):
         cases.append({"scn": ["conc", ["objects", ["pipe", ["interval", d]]], ["init", ["sub", 0, 0]], ["threads", ["u", ["sleep", tu], ["unsub", 0]]], ["fini"], ["sched"] + sched],
                       "kind": "interval-unsub", "d": d, "tu": tu})
         cases.append({"scn": ["conc", ["objects", ["pipe", ["timer", d]]], ["init", ["sub", 0, 0]], ["threads"], ["fini"], ["sched"] + sched], "kind": "timer", "d": d})
+        # the same timer / interval Observable subscribed again: overlapping (offset o) or after the first subscription has ended
+        o = rng.choice([1, d - 1, d + 2, 3 * d])
+        src2 = rng.choice([["timer", d], ["op", "take", [2], ["interval", d]]])
+        cases.append({"scn": ["conc", ["objects", ["pipe", src2]], ["init", ["sub", 0, 0]], ["threads", ["s", ["sleep", o], ["sub", 1, 0]]], ["fini"], ["sched"] + sched],
+                      "kind": "again", "d": d, "o": o, "n": 1 if src2[0] == "timer" else 2})
         # gap scripts
         gaps = [rng.choice([1, 2, d - 1, d + 2, 2 * d + 1]) for _ in range(rng.randrange(1, 5))]
         vals = [10 * (i + 1) for i in range(len(gaps))]
@@ -144,6 +149,14 @@ def judge_one(case, ob):
                 bad.append("timeout(%d ms): expected TimedOut at %d ns (gaps %s), got terminals %s" % (case["d"], fire, case["gaps"], terms))
             elif str(terms[0][1][1]) == "5":
                 bad.append("timeout delivered the source's error instead of TimedOut")
+    elif kind == "again":
+        for u in (0, 1):
+            t0 = 0 if u == 0 else case["o"] * MS
+            got = [(int(r[1]), r[5][0]) for r in ob["ev"] if r[3] == "cb" and int(r[4]) == u]
+            want = [(t0 + (i + 1) * d, "n") for i in range(case["n"])] + [(t0 + case["n"] * d, "c")]
+            if got != want:
+                bad.append("subscription %d (made at %d ms) of the shared timer/interval Observable received %s, expected %s" % (u, t0 // MS, got, want))
+        cbs = [(int(r[1]), r[5]) for r in ob["ev"] if r[3] == "cb"]
     elif kind == "sample-again":
         # per subscriber: only items the source emitted while THAT subscription existed
         pos = {}
